@@ -134,6 +134,12 @@ func c20Gen(rng *verifsim.RNG, idx int, tier string) *Plan {
 		p.Faults = append(p.Faults, Fault{Seam: "notify", From: from, Count: -1, Err: []string{"ENOBUFS", "EPERM", "opaque"}[rng.Intn(3)]})
 		p.Class += "+notify-fails"
 	}
+	if !scripted && rng.Bool(0.2) {
+		// the link watcher is slow to notice that it has to stop (its pending
+		// read has to be interrupted first): Serve waits for it like for any task
+		p.Faults = append(p.Faults, Fault{Seam: "watch.stop", Count: -1, Lat: int64(rng.Dur(50*time.Millisecond, 2*time.Second))})
+		p.Class += "+slow-watcher-stop"
+	}
 	burstIf := ""
 	if !scripted && rng.Bool(0.2) {
 		for _, is := range n.Config.Interfaces {
@@ -283,6 +289,14 @@ func c20Oracle(info *runInfo, res *verifsim.Result) {
 		}
 	}
 
+	// the link watcher's work is over when Serve returns (its task may not
+	// report "returned" while the watch still runs)
+	for i := range ev {
+		e := &ev[i]
+		if e.K == "watch.exit" && e.Seq > serveExit.Seq {
+			res.Violate("C20.waitall", "early:watcher", "Serve returned at %s while the link watcher was still running (it stopped at %s)", ms(serveExit.T), ms(e.T))
+		}
+	}
 	// ... and for nothing else: once the last task has returned Serve has no
 	// reason to stay (a task that never became ready must not hold it back)
 	notifyFault := false
@@ -357,7 +371,16 @@ func c20Oracle(info *runInfo, res *verifsim.Result) {
 			if strings.HasPrefix(s, "script ") || t == firstFail || t.enter == nil {
 				continue
 			}
-			if t.exit == nil || t.exit.T > firstFail.exit.T+nsSec {
+			// (a link watcher that is slow to notice the cancellation gets that much longer)
+			var slack int64
+			if s == "link state watcher" {
+				for _, f := range info.plan.Faults {
+					if f.Seam == "watch.stop" {
+						slack = f.Lat + nsMs
+					}
+				}
+			}
+			if t.exit == nil || t.exit.T > firstFail.exit.T+nsSec+slack {
 				res.Violate("C20.cancelall", "real-task-lingers", "task %s failed at %s but %s was still running a second later", firstFail.name, ms(firstFail.exit.T), s)
 			}
 		}
